@@ -12,7 +12,8 @@ RULE = (
     "Trees of every shape class (uniform, chain, star, binary, caterpillar, forced root degree) with "
     "the non-root ids permuted (root stays 0), a start node anywhere, callback mode enter/leave/both "
     "and entry point swc_utils.traverse / Tree.traverse(root=) / Tree.Node.traverse; callbacks are "
-    "recording closures returning unique tokens; the oracle is computed from parent pointers. "
+    "recording closures returning unique tokens (the `leave` closure may, after reading it, append to / clear / reverse the "
+    "list it was handed); the oracle is computed from parent pointers. "
     "Non-trivial: >= 5 nodes, start node neither the root nor a tip, both callbacks, and a furcation "
     "inside the visited subtree. Depth family: chains / caterpillars / combs of 10^4 (quick) and 10^5 "
     "(thorough) nodes, and 3000-deep trees traversed with the interpreter recursion limit lowered to "
@@ -42,7 +43,9 @@ def structure_case(draw, tier):
         start = inner[draw(st.integers(0, len(inner) - 1))]
     return {"parents": t["parents"], "shape": t["shape"], "permuted": t["permuted"],
             "start": start, "mode": draw(st.sampled_from(MODES + ["both"])),
-            "entry": draw(st.sampled_from(ENTRIES))}
+            "entry": draw(st.sampled_from(ENTRIES)),
+            # what the `leave` callback does with the list it was handed, once it has read it ("all callbacks")
+            "mutate": draw(st.sampled_from(["no", "no", "append", "clear", "sort-reverse"]))}
 
 
 def _tree_of(parents):
@@ -75,7 +78,7 @@ def run_structure(case, ctx):
     n = len(parents)
     ch = models.children(parents)
     sub = models.descendants_or_self(parents, start)
-    ctx.cls("entry:" + entry, "mode:" + mode, "shape:" + case["shape"])
+    ctx.cls("entry:" + entry, "mode:" + mode, "shape:" + case["shape"], "leave-callback-mutates-its-argument:" + case.get("mutate", "no"))
     if case["permuted"]:
         ctx.cls("permuted")
     if start != 0:
@@ -112,6 +115,14 @@ def run_structure(case, ctx):
             order_err.append(f"leave called twice for node {i}")
         tok = ("L", i, clock[0])
         left[i] = (clock[0], list(cvs), tok)
+        how = case.get("mutate", "no")
+        if how != "no" and isinstance(cvs, list):
+            if how == "append":
+                cvs.append(("junk", i))
+            elif how == "clear":
+                cvs.clear()
+            else:
+                cvs.reverse()
         return tok
 
     ret = _run_traverse(parents, start, mode, entry, enter, leave)
@@ -218,7 +229,8 @@ def run_deep(case, ctx):
 SUBCHECKS = [
     Sub("structure", structure_case, run_structure, quick=4000, thorough=60000, shards_quick=4,
         required={"entry:swc_utils": 50, "entry:tree": 50, "entry:node": 50, "mode:both": 100,
-                  "permuted": 100, "start-not-root": 200, "shape:chain": 20, "shape:star": 20}),
+                  "permuted": 100, "start-not-root": 200, "shape:chain": 20, "shape:star": 20,
+                  "leave-callback-mutates-its-argument:append": 100, "leave-callback-mutates-its-argument:clear": 100}),
     Sub("deep", deep_case, run_deep, quick=24, thorough=96, shards_quick=4,
         required={"limited-recursion": 4, "deep:chain": 2, "deep:caterpillar": 2}),
 ]
